@@ -348,6 +348,9 @@ func RunCase(t *testing.T, spec CaseSpec) *CaseResult {
 	case "C06":
 		add(checkC06(r))
 		for _, a := range r.Results {
+			if len(a.Causes) != 1 || a.Hang || a.ErrorBlocked {
+				res.Stats.probe(fmt.Sprintf("not-judged:plan=%v:causes=%d", a.Plan.Stop, len(a.Causes)))
+			}
 			if len(a.Causes) == 1 && !a.Hang && !a.ErrorBlocked {
 				k := "judged:" + a.Causes[0]
 				if a.StreamErr == nil {
